@@ -331,3 +331,57 @@ REGISTRY["C19"]["theorems"] += T("Proofs.C19b", "BLDFM.C19", ["km_crosswind_inte
 REGISTRY["C19"]["partial_clauses"][0] = ("the continuous crosswind-integrated footprint has unit mass over the upwind half line and the crosswind Gaussian has unit mass "
     "(km_crosswind_integrated_unit_mass, km_crosswind_gaussian_unit_mass); that the GRID SUM tends to the regularised incomplete-gamma mass of the finite extent as the grid is "
     "refined is a numeric oracle only (scipy.special.gammaincc); Mathlib has no incomplete gamma function")
+
+# whole-function statement tables (Generated/Bodies.lean, pinned in Proofs/Bridge/Bodies.lean): the canonical text of
+# every function that the hand-written model covers only through the correspondence run
+BODY_TABLES = {
+    "C02": ["utils_point_measurement"],
+    "C08": ["utils_compute_wind_fields", "iface_run_single", "tower_compute_local_xy", "cfg_latlon_to_xy", "config_post_init"],
+    "C09": ["pbl_vertical_profiles"],
+    "C10": ["iface_run_single"],
+    "C12": ["fft_get_manager", "fft_reset_manager", "fft_fft2", "fft_ifft2", "fftmgr_init", "fftmgr_fft2", "fftmgr_ifft2", "utils_parallelize"],
+    "C13": ["utils_ideal_source", "utils_point_measurement", "parse_config_dict", "iface_run_single", "tower_compute_local_xy", "config_post_init",
+            "utils_compute_wind_fields"],
+    "C15": ["cache_init", "cache_compute_key", "cache_get", "cache_put"],
+    "C16": ["met_n_timesteps", "met_get_step", "met_validate", "config_post_init", "cli_cmd_run"],
+    "C17": ["geo_xy_to_latlon", "cfg_latlon_to_xy", "tower_compute_local_xy", "config_post_init"],
+    "C18": ["io_save", "io_load"],
+    "C19": ["km_estimateFootprint", "km_estimateZ0"],
+    "C20": ["plot_maybe_slice_level", "utils_get_source_area"],
+}
+for _p in ("C01", "C02", "C03", "C04", "C05", "C06", "C07", "C10", "C11"):
+    BODY_TABLES.setdefault(_p, [])
+    BODY_TABLES[_p] += ["solver_steady_state", "solver_ivp"]
+BODY_TABLES["C12"] += ["solver_steady_state", "solver_ivp"]
+BODY_TABLES["C15"] += ["solver_steady_state"]
+for _p, _ts in BODY_TABLES.items():
+    REGISTRY[_p]["theorems"] += T("Proofs.Bridge.Bodies", "BLDFM.Bridge", ["body_" + t for t in _ts], "bridge")
+    REGISTRY[_p]["body_tables"] = list(_ts)
+    if "Bodies" not in REGISTRY[_p]["kernel_groups"]:
+        REGISTRY[_p]["kernel_groups"].append("Bodies")
+
+# C15, concurrency clause: the write protocol at file-system granularity for several processes sharing the directory
+REGISTRY["C15"]["theorems"] += (T("Proofs.C15b", "BLDFM.C15", ["proto_step_inv", "proto_step_no_fail", "proto_read_sound", "proto_no_partial_entry", "proto_run",
+                                                              "pinv_empty", "init_cleanup_breaks_rename", "shared_temp_publishes_partial",
+                                                              "inplace_crash_leaves_partial", "unguarded_partial_is_fatal"])
+                                + T("Proofs.Bridge.Tables", "BLDFM.Bridge", ["proto_cfg_table"], "bridge"))
+
+# C19 / C20 dtype clause: allocation tables + the dtype model's theorems
+_DT = T("Proofs.C19c", "BLDFM.C19", ["helper_dtype_free", "helper_float_exact", "helpers_dtype_free", "inherit_truncates", "inherit_not_dtype_free", "truncR_int"])
+REGISTRY["C19"]["theorems"] += _DT + T("Proofs.Bridge.Tables", "BLDFM.Bridge", ["km_alloc_table"], "bridge")
+REGISTRY["C20"]["theorems"] += _DT + T("Proofs.Bridge.Tables", "BLDFM.Bridge", ["source_area_alloc_table"], "bridge")
+REGISTRY["C19"]["partial_clauses"] = [c.replace("dtype-independence (int / float alike): static extract of the helper allocations + oracle with int, numpy int64 and float32 heights",
+                                                "dtype-independence (int / float alike) is a theorem about the dtype model (helpers_dtype_free) given the extracted allocation table "
+                                                "(km_alloc_table); numpy's actual casting rules are exercised by the oracle with int, numpy int64 and float32 inputs")
+                                      for c in REGISTRY["C19"]["partial_clauses"]]
+
+# C17 accuracy clause (distance): explicit 0.1 % bound against the haversine distance on the same sphere
+REGISTRY["C17"]["theorems"] += T("Proofs.C17b", "BLDFM.C17", ["sin_sq_lower", "hav_alg", "hav_bounds", "equirect_core", "equirect_distance_accuracy"])
+REGISTRY["C17"]["partial_clauses"] = ["great-circle accuracy: the DISTANCE clause (0.1 % within 5 km of local distance at |ref lat| <= 60 deg, against the haversine distance on the "
+                                      "model's own sphere R = 6371000 m) is a theorem (equirect_distance_accuracy); the BEARING clause (0.1 degree) is decided numerically against the "
+                                      "initial great-circle bearing by the oracle"]
+REGISTRY["C17"]["theorems"] += T("Proofs.C17c", "BLDFM.C17", ["size_facts", "G2_bound", "G1_bound", "dot_mixed", "dot_main", "bearing_alg", "abs_sin_sub_le",
+                                                               "abs_le_abs_tan", "bearing_core", "equirect_bearing_accuracy"])
+REGISTRY["C17"]["partial_clauses"] = ["float rounding only: BOTH accuracy clauses are theorems over exact arithmetic on the model's own sphere (R = 6371000 m): local distance within "
+                                      "0.1 % of the haversine distance (equirect_distance_accuracy) and local bearing within 0.1 degree of the initial great-circle bearing "
+                                      "(equirect_bearing_accuracy), for |ref lat| <= 60 deg and local distance <= 5000 m; 'a few kilometres' is read as 5 km, 'non-polar' as 60 deg"]
